@@ -1,5 +1,6 @@
 import Drv.C19
 import Drv.Kv
+import Drv.Fmt
 import Drv.C14
 import Drv.C12
 import Drv.C18
@@ -7,6 +8,7 @@ import Drv.C18
 def main (args : List String) : IO UInt32 := do
   match args with
   | ["c19"] => Drv.pureLoop Drv.C19.step; return 0
+  | ["fmt"] => Drv.Fmt.main; return 0
   | ["kv"] => Drv.loop Drv.Kv.step Drv.Kv.init; return 0
   | ["c14"] => Drv.loop Drv.C14.step Drv.C14.Form.none; return 0
   | ["c12"] => Drv.loop Drv.C12.step Drv.C12.init; return 0
